@@ -25,6 +25,18 @@ struct HB {
   std::weak_ptr<size_t> w;
 };
 
+// observation of a heartbeat by the oracles: never a scheduling point
+template <class W>
+bool
+hb_expired(const W &w)
+{
+  if constexpr (requires { w.raw_expired(); }) {
+    return w.raw_expired();
+  } else {
+    return w.expired();
+  }
+}
+
 struct Ghost {
   size_t id[kMaxT];
   bool body_running[kMaxT] = {};
@@ -113,7 +125,7 @@ struct Worker {
     if (g.id[me] == kNone) {
       // first assignment: every heartbeat handed out to earlier owners must be expired by now
       for (auto &h : g.hb_by_id[id]) {
-        if (h.thread != me && !h.w.expired()) {
+        if (h.thread != me && !hb_expired(h.w)) {
           report("HB-REUSE", "ID " + s(id) + " was given to T" + s(me) + " while the heartbeat handed out to its earlier owner T" + s(h.thread) + " is not expired");
         }
       }
@@ -282,7 +294,7 @@ struct Worker {
       case GETHB: {
         get_id();
         auto w = IDManager::GetHeartBeat();
-        if (w.expired()) {
+        if (hb_expired(w)) {
           report("HB-LIVE", "GetHeartBeat returned an expired heartbeat to a running thread");
         } else if (g.id[me] != kNone && g.id[me] < static_cast<size_t>(kMaxId)) {
           g.hb_by_id[g.id[me]].push_back(HB{me, w});
@@ -292,7 +304,7 @@ struct Worker {
       }
       case CHECKHB:
         for (auto &w : g.own_hb[me]) {
-          if (w.expired()) report("HB-LIVE", "a heartbeat of T" + s(me) + " is expired while the thread is still running");
+          if (hb_expired(w)) report("HB-LIVE", "a heartbeat of T" + s(me) + " is expired while the thread is still running");
         }
         break;
       case SPIN:
@@ -573,7 +585,7 @@ thread_exit_cb(int t)
   X->live_threads--;
   if (X->live_threads > 0) X->out.thread_churn = true;
   for (auto &w : g.own_hb[t]) {
-    if (!w.expired()) report("HB-EXIT", "a heartbeat of T" + s(t) + " is still unexpired after the thread has exited");
+    if (!hb_expired(w)) report("HB-EXIT", "a heartbeat of T" + s(t) + " is still unexpired after the thread has exited");
   }
 }
 
